@@ -102,7 +102,7 @@ pub fn run(ctx: &Ctx) -> Result<Evidence, String> {
     // a few richer second arguments (nested values) and non-arrays
     let mut rng = Rng::stream(ctx.seed, 14);
     let cfg = gen::DocCfg::default();
-    for _ in 0..ctx.tier.pick(40, 600) {
+    for _ in 0..ctx.tier.pick(40, 6000) {
         let n = rng.below(5) as usize;
         bs.push(J::Arr((0..n).map(|_| gen::random_doc(&mut rng, &cfg)).collect()));
     }
